@@ -304,6 +304,13 @@ func (s *PathState) load(in *ssa.UnOp) *Term {
 	if v, ok := s.mem[a.K]; ok {
 		return v
 	}
+	// field of a struct whose whole value was stored (x := <-ch; x.f)
+	if a.Op == "fieldaddr" {
+		if whole, ok := s.mem[a.Args[0].K]; ok && whole != nil {
+			t := mk("field", a.Aux, whole.K+"."+a.Aux, in, whole)
+			return t
+		}
+	}
 	ver := ""
 	if r := a.Root(); r != nil && r.Op == "alloc" {
 		if n := s.memver[r.K]; n > 0 {
